@@ -477,5 +477,74 @@ class StructuredInit(CtorContract):
         return native('run_ctor("StructuredBasis")')
 
 
+# ------------------------------------------------------------------------------------------------ Basis.__getitem__
+
+class IndexArg(Vec):
+    """a numpy array used as an index: not a slice / int / ..."""
+
+    def isinstance_(self, ctx, types):
+        return False
+
+
+class BasisGetitem(CtorContract):
+    """Basis.__getitem__ with an array index: a bool mask of the RIGHT length (ndofs) builds MaskedBasis(self, positions of True); a
+    strictly increasing int array builds MaskedBasis(self, index); everything else (in particular a mask of the wrong length, an
+    unsorted index array) is NOT turned into a MaskedBasis but handed to Array.__getitem__."""
+    fn = 'function:Basis.__getitem__'
+
+    def __init__(self, kind):
+        self.kind = kind
+        self.label = kind
+
+    def setup(self, cx):
+        nd = cx.int('ndofs')
+        cx.assume(nd >= 0)
+        v = Vec.fresh(cx, 'index', 'bool' if self.kind == 'boolmask' else 'int', probes=3)
+        arg = IndexArg(v.kind, v.n, v._sel, 'index')
+        S = State(nd=nd, arg=arg, built=[], fell=[])
+
+        def masked(ctx, parent, indices):
+            S.built.append((parent, indices))
+            return SOpaque('MaskedBasis')
+
+        def super_getitem(ctx, s, index):
+            S.fell.append(index)
+            return SOpaque('Array.__getitem__')
+        me = SObj('Basis', attrs=dict(ndofs=SInt(nd)), methods={'super().__getitem__': super_getitem})
+        S.me = me
+        S.args = (me, arg)
+
+        def np_where(ctx, m):
+            if isinstance(m, Vec) and m.kind == 'bool':
+                return (npsets.np_nonzero(ctx, m),)
+            raise Unsupported('numpy.where variant')
+        S.globals = {'numeric': Numeric(), 'MaskedBasis': masked, 'numpy': Numpy(extra=dict(CMP, diff=np_diff, all=np_all, where=np_where))}
+        return S
+
+    def ensures(self, cx, S, result):
+        arg, nd = S.arg, S.nd
+        is_masked = isinstance(result, SOpaque) and result.label == 'MaskedBasis' and len(S.built) == 1 and not S.fell
+        is_plain = isinstance(result, SOpaque) and result.label == 'Array.__getitem__' and not S.built and len(S.fell) == 1 and S.fell[0] is arg
+        if not (is_masked or is_plain):
+            return [('either-a-masked-basis-or-plain-array-indexing', z3.BoolVal(False))]
+        good = (arg.n == nd) if self.kind == 'boolmask' else z3.And(qforall(1, lambda i: z3.Implies(z3.And(0 <= i, i + 1 < arg.n), arg.sel(i) < arg.sel(i + 1))))
+        out = [('either-a-masked-basis-or-plain-array-indexing', z3.BoolVal(True)),
+               ('masked-basis-exactly-for-a-%s' % ('mask-of-the-right-length' if self.kind == 'boolmask' else 'strictly-increasing-index-array'), good if is_masked else z3.Not(good))]
+        if is_masked:
+            parent, ind = S.built[0]
+            if not (parent is S.me and isinstance(ind, Vec) and ind.kind == 'int'):
+                return out + [('masked-basis-of-self-with-the-selected-dofs', z3.BoolVal(False))]
+            if self.kind == 'boolmask':
+                sel = z3.And(npsets.strictly_increasing(ind), ind.forall(lambda j, x: z3.And(0 <= x, x < arg.n, arg.sel(x))),
+                             qforall(1, lambda a: z3.Implies(z3.And(0 <= a, a < arg.n, arg.sel(a)), qexists(1, lambda j: z3.And(0 <= j, j < ind.n, ind.sel(j) == a)))))
+            else:
+                sel = z3.BoolVal(ind is arg)
+            out.append(('masked-basis-of-self-with-the-selected-dofs', sel))
+        return out
+
+    def replay(self, ob):
+        return native('run_getitem()')
+
+
 def contracts():
-    return [DiscontInit(), PlainInit(), MaskedInit(), MaskedInit(twod=True), PrunedInit(), StructuredInit(1), StructuredInit(2), StructuredInit(3)]
+    return [DiscontInit(), PlainInit(), MaskedInit(), MaskedInit(twod=True), PrunedInit(), StructuredInit(1), StructuredInit(2), StructuredInit(3), BasisGetitem('boolmask'), BasisGetitem('intarray')]
